@@ -14,17 +14,17 @@ import signal
 import cli
 from vcommon import NCPU, MachineryError, scratch_dir
 
-EIO, ENOSPC, EXDEV, EACCES, EMFILE, EROFS = errno.EIO, errno.ENOSPC, errno.EXDEV, errno.EACCES, errno.EMFILE, errno.EROFS
+EIO, ENOSPC, EXDEV, EACCES, EMFILE, EROFS, EINVAL = errno.EIO, errno.ENOSPC, errno.EXDEV, errno.EACCES, errno.EMFILE, errno.EROFS, errno.EINVAL
 
 FAIL_MENU = {
     "open": [EACCES, EIO, EMFILE],
     "creat": [EACCES, ENOSPC, EROFS],
     "openw": [EACCES, ENOSPC, EROFS],
-    "write": [EIO, ENOSPC],
+    "write": [EIO, ENOSPC, EINVAL, errno.EOPNOTSUPP],      # the last two: errnos an implementation may be tempted to wave through as "not supported"
     "rename": [EXDEV, EACCES, EIO],
     "unlink": [EACCES],
     "read": [EIO],
-    "fsync": [EIO],
+    "fsync": [EIO, EINVAL],
     "opendir": [EACCES],
     "readdir": [EIO],
 }
